@@ -220,7 +220,10 @@ func runRing(seed uint64, scale int, out string, _ string) *summary {
 					shrink = true
 				}
 				lastStripes = ln
-				if s.Len() > 16*max(ln, 1) {
+				// the stripe table only grows: a length read AFTER Len() bounds the table Len() walked
+				held := s.Len()
+				ln2, _ := s.Stripes()
+				if held > 16*max(ln2, 1) {
 					overCap = true
 				}
 			}
